@@ -1,80 +1,8 @@
-//! n2v: runtime-monitoring harness for evmar/n2 (see /verif/DESIGN.md).
-mod agent_stream;
-mod ap;
-mod dbfmt;
-mod json;
-mod model;
-mod props;
-mod pure;
-mod real;
-mod report;
-mod rng;
-mod sim;
-
-use report::Report;
+//! n2v worker: one shard of one engine for one property (see /verif/check).
+use n2v::report::Report;
+use n2v::*;
 use std::path::PathBuf;
 use std::time::{Duration, Instant};
-
-pub struct Ctx {
-    pub prop: String,
-    pub tier: String,
-    pub seed: u64,
-    pub shard: usize,
-    pub nshards: usize,
-    pub deadline: Instant,
-    pub scratch: PathBuf,
-    pub only_case: Option<u64>,
-    pub max_cases: u64,
-    pub journal: Option<PathBuf>,
-    pub verbose: bool,
-    /// start the case/input enumeration here (abort attribution)
-    pub from_case: Option<u64>,
-    /// journal every input instead of every 1024th
-    pub fine_journal: bool,
-    pub args: Vec<String>,
-    pub out: Option<PathBuf>,
-    pub last_checkpoint: std::cell::Cell<Instant>,
-    pub started: Instant,
-}
-
-impl Ctx {
-    pub fn thorough(&self) -> bool {
-        self.tier == "thorough"
-    }
-    pub fn expired(&self) -> bool {
-        Instant::now() >= self.deadline
-    }
-    /// Write the report collected so far (at most once a second), so that a
-    /// worker killed by an abort inside n2 does not take its observations with it.
-    pub fn checkpoint(&self, rep: &Report) {
-        let Some(out) = &self.out else { return };
-        if self.only_case.is_some() || self.last_checkpoint.get().elapsed() < Duration::from_millis(1000) {
-            return;
-        }
-        self.last_checkpoint.set(Instant::now());
-        let mut j = rep.to_json();
-        j.set("wall_s", json::J::Num(self.started.elapsed().as_secs_f64()));
-        j.set("seed", json::J::i(self.seed));
-        j.set("shard", json::J::i(self.shard));
-        j.set("checkpoint", json::J::Bool(true));
-        let tmp = out.with_extension("tmp");
-        if std::fs::write(&tmp, j.dump()).is_ok() {
-            let _ = std::fs::rename(&tmp, out);
-        }
-    }
-    pub fn arg(&self, name: &str) -> Option<&str> {
-        arg(&self.args, name)
-    }
-    pub fn journal(&self, case: u64) {
-        if let Some(p) = &self.journal {
-            let _ = std::fs::write(p, format!("{}\n", case));
-        }
-    }
-}
-
-fn arg<'a>(args: &'a [String], name: &str) -> Option<&'a str> {
-    args.iter().position(|a| a == name).and_then(|i| args.get(i + 1)).map(|s| s.as_str())
-}
 
 fn main() {
     let args: Vec<String> = std::env::args().collect();
